@@ -10,5 +10,6 @@ for sd in $seeds; do
     line=$(echo "$out" | grep -a "^OK\|^VIOLATION\|HARNESS" | head -1 | cut -c1-150)
     nk=$(echo "$out" | grep -a -c "^KNOWN-FINDING")
     echo "seed=$sd $c rc=$rc known=$nk $line"
+    if [ $rc -ge 2 ]; then echo "$out" | tail -15 | sed 's/^/      | /'; fi
   done
 done
